@@ -147,7 +147,7 @@ def run_case(case, ctx):
         obs.fail('frame_data_not_signal', '')
 
     sg = dict(path={'kind': 'constant'}, t={'kind': 'constant', 'level': case['level']}, f=fdesc, bp={'kind': 'none'})
-    tol = S.tolerance(ax, sg)
+    tol = S.tolerance(ax, sg, n_smear=n_s if smear else 0)
     # centres per row (and smeared extent)
     c0 = f_start + rate * ax.ts
     c1 = c0 + (rate * ax.dt if smear else 0.0)
